@@ -133,3 +133,115 @@ Proof.
   assert (E : osc_periods (0 :: ps) = ps) by (unfold osc_periods; numR; case_Reqb 0 0; [reflexivity|lra]).
   rewrite E, map2_map_l. reflexivity.
 Qed.
+
+(** * refinement of the time step *)
+Section Refine.
+Variables xi w : R.
+Hypothesis Hw : 0 < w.
+Hypothesis Hxi0 : 0 <= xi.
+Hypothesis Hxi1 : xi < 1.
+
+(** semigroup property of the closed form (from uniqueness) *)
+Lemma flow_compose u0 v0 g0 s t1 t2 : 0 <= t2 ->
+  usol xi w u0 v0 g0 s (t1 + t2) = usol xi w (usol xi w u0 v0 g0 s t1) (vsol xi w u0 v0 g0 s t1) (g0 + s * t1) s t2 /\
+  vsol xi w u0 v0 g0 s (t1 + t2) = vsol xi w (usol xi w u0 v0 g0 s t1) (vsol xi w u0 v0 g0 s t1) (g0 + s * t1) s t2.
+Proof.
+  intros Ht2.
+  apply (forced_unique xi w Hw Hxi0 Hxi1 t1 t2 (g0 + s * t1) s (usol xi w u0 v0 g0 s) (vsol xi w u0 v0 g0 s) Ht2).
+  - intros t _. now apply usol_deriv.
+  - intros t _. evar_last; [now apply vsol_deriv|]. ring.
+  - lra.
+Qed.
+
+(** a fine record [F] interpolates [rec] with factor m on the span of the coarse record *)
+Definition interpolates (m : nat) (rec F : list R) : Prop :=
+  (rec <> [] -> (m * (length rec - 1) + 1 <= length F)%nat) /\
+  forall i k, (S i < length rec)%nat -> (k <= m)%nat ->
+    nth (m * i + k) F 0 = nth i rec 0 + (nth (S i) rec 0 - nth i rec 0) * INR k / INR m.
+
+Theorem refinement_gen dt (m : nat) (rec F : list R) : 0 < dt -> (1 <= m)%nat -> interpolates m rec F ->
+  forall i, (i < length rec)%nat ->
+    nth (m * i) (nj_series (nj_coeffs xi w (dt / INR m)) F) (0, 0) = nth i (nj_series (nj_coeffs xi w dt) rec) (0, 0).
+Proof.
+  intros Hdt Hm [HlenF HF].
+  assert (HmR : 0 < INR m) by (apply lt_0_INR; lia).
+  set (h := dt / INR m). assert (Hh : 0 < h) by (unfold h; apply Rdiv_lt_0_compat; lra).
+  set (cf := nj_coeffs xi w h). set (cc := nj_coeffs xi w dt).
+  induction i as [|i IH]; intros Hi.
+  - rewrite Nat.mul_0_r. rewrite !nj_series_0; [reflexivity| |].
+    + intros ->; cbn in Hi; lia.
+    + intros ->. assert (Hne : rec <> []) by (intros ->; cbn in Hi; lia). specialize (HlenF Hne). cbn in HlenF; lia.
+  - specialize (IH ltac:(lia)).
+    set (S0 := nth i (nj_series cc rec) (0, 0)) in *.
+    set (g0 := nth i rec 0). set (g1 := nth (S i) rec 0). set (sl := (g1 - g0) / dt).
+    assert (Hinner : forall k, (k <= m)%nat ->
+      nth (m * i + k) (nj_series cf F) (0, 0)
+      = (usol xi w (fst S0) (snd S0) g0 sl (INR k * h), vsol xi w (fst S0) (snd S0) g0 sl (INR k * h))).
+    { induction k as [|k IHk]; intros Hk.
+      - rewrite Nat.add_0_r, IH. cbn [INR]. rewrite Rmult_0_l, usol_0, vsol_0 by assumption. now destruct S0.
+      - replace (m * i + S k)%nat with (S (m * i + k)) by lia.
+        assert (Hne : rec <> []) by (intros ->; cbn in Hi; lia). specialize (HlenF Hne).
+        rewrite nj_series_S by nia.
+        rewrite IHk by lia. fold cf.
+        rewrite (HF i k Hi ltac:(lia)). replace (S (m * i + k)) with (m * i + S k)%nat by lia.
+        rewrite (HF i (S k) Hi Hk). fold g0 g1.
+        unfold cf. rewrite (one_step xi w h Hw Hxi0 Hxi1 Hh). cbn [fst snd].
+        assert (Esl : (g0 + (g1 - g0) * INR (S k) / INR m - (g0 + (g1 - g0) * INR k / INR m)) / h = sl).
+        { unfold sl, h. rewrite S_INR. field. lra. }
+        assert (Eg : g0 + (g1 - g0) * INR k / INR m = g0 + sl * (INR k * h)).
+        { unfold sl, h. field. lra. }
+        rewrite Esl, Eg.
+        destruct (flow_compose (fst S0) (snd S0) g0 sl (INR k * h) h ltac:(lra)) as [E1 E2].
+        replace (INR (S k) * h) with (INR k * h + h) by (rewrite S_INR; ring).
+        now rewrite E1, E2. }
+    replace (m * S i)%nat with (m * i + m)%nat by lia.
+    rewrite (Hinner m (Nat.le_refl m)).
+    rewrite nj_series_S by exact Hi. fold cc S0 g0 g1.
+    unfold cc. rewrite (one_step xi w dt Hw Hxi0 Hxi1 Hdt). fold sl.
+    replace (INR m * h) with dt by (unfold h; field; lra). reflexivity.
+Qed.
+
+(** [refine m rec] (m-1 interpolated samples between neighbours) interpolates [rec] *)
+Lemma refine_from_length m x0 rest : length (refine_from m x0 rest) = (m * length rest + 1)%nat.
+Proof.
+  revert x0; induction rest as [|x1 r IH]; intros x0; cbn [refine_from length]; [lia|].
+  rewrite app_length, map_length, seq_length, IH. lia.
+Qed.
+Lemma refine_from_hd m x0 rest : (1 <= m)%nat -> nth 0 (refine_from m x0 rest) 0 = x0.
+Proof.
+  intros Hm. destruct rest as [|x1 r]; [reflexivity|]. cbn [refine_from].
+  rewrite app_nth1 by (rewrite map_length, seq_length; lia).
+  rewrite (nth_map_in _ (seq 0 m) 0 0 0%nat) by (rewrite seq_length; lia). rewrite seq_nth by lia.
+  cbn [INR Nat.add]. unfold Rdiv. ring.
+Qed.
+Lemma refine_from_nth m : (1 <= m)%nat -> forall rest x0 i k, (i < length rest)%nat -> (k <= m)%nat ->
+  nth (m * i + k) (refine_from m x0 rest) 0
+  = nth i (x0 :: rest) 0 + (nth (S i) (x0 :: rest) 0 - nth i (x0 :: rest) 0) * INR k / INR m.
+Proof.
+  intros Hm. assert (HmR : 0 < INR m) by (apply lt_0_INR; lia).
+  induction rest as [|x1 r IH]; intros x0 i k Hi Hk; cbn [length] in Hi; [lia|].
+  cbn [refine_from]. destruct i as [|j].
+  - rewrite Nat.mul_0_r, Nat.add_0_l. cbn [nth].
+    destruct (Nat.eq_dec k m) as [->|Hne].
+    + rewrite app_nth2 by (rewrite map_length, seq_length; lia). rewrite map_length, seq_length, Nat.sub_diag.
+      rewrite refine_from_hd by exact Hm. field. lra.
+    + rewrite app_nth1 by (rewrite map_length, seq_length; lia).
+      rewrite (nth_map_in _ (seq 0 m) k 0 0%nat) by (rewrite seq_length; lia). rewrite seq_nth by lia. reflexivity.
+  - rewrite Nat.mul_succ_r. rewrite app_nth2 by (rewrite map_length, seq_length; lia). rewrite map_length, seq_length.
+    replace (m * j + m + k - m)%nat with (m * j + k)%nat by lia.
+    rewrite IH by lia. reflexivity.
+Qed.
+Lemma refine_interpolates m (rec : list R) : (1 <= m)%nat -> interpolates m rec (refine m rec).
+Proof.
+  intros Hm. destruct rec as [|x0 rest]; [split; [congruence | intros i k Hi; cbn in Hi; lia]|].
+  cbn [refine]. split.
+  - intros _. rewrite refine_from_length. cbn [length]. lia.
+  - intros i k Hi Hk. cbn [length] in Hi. apply refine_from_nth; [exact Hm | lia | exact Hk].
+Qed.
+
+Theorem refinement dt (m : nat) (rec : list R) : 0 < dt -> (1 <= m)%nat ->
+  forall i, (i < length rec)%nat ->
+    nth (m * i) (nj_series (nj_coeffs xi w (dt / INR m)) (refine m rec)) (0, 0)
+    = nth i (nj_series (nj_coeffs xi w dt) rec) (0, 0).
+Proof. intros Hdt Hm. apply refinement_gen; [exact Hdt | exact Hm | now apply refine_interpolates]. Qed.
+End Refine.
